@@ -586,6 +586,15 @@ impl Drop for APointFuture {
     }
 }
 
+/// A thread that was an actor of an earlier run (or of an earlier incarnation inside this run)
+/// and is still running free: none of its hook calls may touch the current run's state.
+fn stale_caller(g: &Inner) -> bool {
+    match ACTOR.with(|a| a.get()) {
+        Some((_, epoch)) => epoch != g.epoch,
+        None => false,
+    }
+}
+
 impl xs::verif::Controller for SimCtrl {
     fn point(&self, site: &'static str, detail: u128, guard: Option<xs::verif::Guard<'_>>) {
         self.park(site, detail, guard, false);
@@ -615,7 +624,7 @@ impl xs::verif::Controller for SimCtrl {
 
     fn expect_thread(&self, kind: &'static str) -> u64 {
         let mut g = self.lock();
-        if !g.active {
+        if !g.active || stale_caller(&g) {
             return u64::MAX;
         }
         g.pending += 1;
@@ -667,14 +676,14 @@ impl xs::verif::Controller for SimCtrl {
 
     fn event(&self, site: &'static str, detail: u128) {
         let mut g = self.lock();
-        if g.active {
+        if g.active && !stale_caller(&g) {
             g.events.push((site, detail));
         }
     }
 
     fn now_ms(&self) -> Option<u64> {
         let g = self.lock();
-        if g.active {
+        if g.active && !stale_caller(&g) {
             Some(g.now_ms)
         } else {
             None
@@ -683,7 +692,7 @@ impl xs::verif::Controller for SimCtrl {
 
     fn new_id(&self) -> Option<Scru128Id> {
         let mut g = self.lock();
-        if g.active && g.knobs.get("ids.real").copied().unwrap_or(0) == 0 {
+        if g.active && !stale_caller(&g) && g.knobs.get("ids.real").copied().unwrap_or(0) == 0 {
             let now = g.now_ms;
             Some(g.idgen.generate_or_reset_core(now, 10_000))
         } else {
@@ -693,7 +702,7 @@ impl xs::verif::Controller for SimCtrl {
 
     fn seq(&self, name: &'static str) -> u64 {
         let mut g = self.lock();
-        if !g.active {
+        if !g.active || stale_caller(&g) {
             return 0;
         }
         let c = g.seqs.entry(name).or_insert(0);
@@ -704,7 +713,7 @@ impl xs::verif::Controller for SimCtrl {
     fn note(&self, site: &'static str, text: &str) {
         let cb = {
             let g = self.lock();
-            if !g.active {
+            if !g.active || stale_caller(&g) {
                 return;
             }
             g.note_cb.clone()
@@ -716,7 +725,7 @@ impl xs::verif::Controller for SimCtrl {
 
     fn knob(&self, name: &'static str, default: usize) -> usize {
         let g = self.lock();
-        if g.active {
+        if g.active && !stale_caller(&g) {
             g.knobs.get(name).copied().unwrap_or(default)
         } else {
             default
